@@ -80,6 +80,7 @@ impl JoinKatakanaOovPlugin {
                 break;
             }
 
+            verif_point!("join_katakana:node");
             let node = &path[i];
             if !(node.is_oov() || self.is_shorter(node)) || !self.is_katakana_node(text, node) {
                 i += 1;
